@@ -13,6 +13,8 @@
 //     connection returned by tls.Dial, placed before the forwardPreface call
 //     (src_closes_upstream); does Proxy close a channel that relayFrames' select
 //     receives from through a relay field (src_done_signal)
+//   - h2/relay.go: every `destMu.Lock()` is released on every path of its statement list
+//     (src_destmu_released_on_every_path)
 //   - h2/relay.go (emitEligibleFrames): is the send into `output` a case of a
 //     select with another receive case (src_emit_abortable) or a bare send
 //
@@ -359,6 +361,80 @@ func main() {
 	}
 	abortable := guarded == 1 && doneSignal
 
+	// --- destMu discipline: every `<x>.destMu.Lock()` is followed, in the same statement list, either
+	// directly by `defer <x>.destMu.Unlock()` or by `<x>.destMu.Unlock()` with no return in between
+	isMuCall := func(st ast.Stmt, name string, deferred bool) bool {
+		var call *ast.CallExpr
+		switch x := st.(type) {
+		case *ast.ExprStmt:
+			if deferred {
+				return false
+			}
+			call, _ = x.X.(*ast.CallExpr)
+		case *ast.DeferStmt:
+			if !deferred {
+				return false
+			}
+			call = x.Call
+		}
+		if call == nil {
+			return false
+		}
+		se, ok := call.Fun.(*ast.SelectorExpr)
+		if !ok || se.Sel.Name != name {
+			return false
+		}
+		mu, ok := se.X.(*ast.SelectorExpr)
+		return ok && mu.Sel.Name == "destMu"
+	}
+	locks, disciplined := 0, 0
+	checkList := func(list []ast.Stmt) {
+		for i, st := range list {
+			if !isMuCall(st, "Lock", false) {
+				continue
+			}
+			locks++
+			if i+1 < len(list) && isMuCall(list[i+1], "Unlock", true) {
+				disciplined++
+				continue
+			}
+			for j := i + 1; j < len(list); j++ {
+				if isMuCall(list[j], "Unlock", false) {
+					disciplined++
+					break
+				}
+				escapes := false
+				ast.Inspect(list[j], func(n ast.Node) bool {
+					switch n.(type) {
+					case *ast.ReturnStmt, *ast.BranchStmt:
+						escapes = true
+					case *ast.FuncLit:
+						return false
+					}
+					return true
+				})
+				if escapes {
+					break
+				}
+			}
+		}
+	}
+	ast.Inspect(relay, func(n ast.Node) bool {
+		switch x := n.(type) {
+		case *ast.BlockStmt:
+			checkList(x.List)
+		case *ast.CaseClause:
+			checkList(x.Body)
+		case *ast.CommClause:
+			checkList(x.Body)
+		}
+		return true
+	})
+	if locks == 0 {
+		problem("no destMu.Lock() found in h2/relay.go")
+	}
+	destMuOK := locks > 0 && locks == disciplined
+
 	b := func(v bool) string {
 		if v {
 			return "true"
@@ -377,6 +453,8 @@ func main() {
 		"Definition reader_done_capacity : nat := " + strconv.Itoa(readerDoneCap) + ".\n" +
 		"Definition writer_err_capacity : nat := " + strconv.Itoa(writerErrCap) + ".\n" +
 		"Definition frame_ready_capacity : nat := " + strconv.Itoa(frameReadyCap) + ".\n" +
+		"(* every destMu.Lock() in relay.go is released on every path (defer Unlock, or Unlock with no return in between) *)\n" +
+		"Definition src_destmu_released_on_every_path : bool := " + b(destMuOK) + ".\n" +
 		"(* every shape the translator looks for was found *)\n" +
 		"Definition src_shape_ok : bool := " + b(len(problems) == 0) + ".\n"
 	for _, m := range problems {
